@@ -6,7 +6,7 @@ from props import c03
 
 RULE = ("a pool of reactions drawn from the corpus run (one third MCS-stage, one third rule-based, one third input-balanced/declined) plus fixed neighbour-sensitive rows (no common substructure at all, both-side imbalance, redox-curated, input-balanced) "
         "is processed (a) each alone, (b) all together in several random orders, (c) through the public batch_size API in random "
-        "partitions, (d) with worker counts > 1 (joblib process pools); all public columns of every row are compared across contexts "
+        "partitions, (d) with worker counts > 1 (joblib process pools), (e) with 3 worker threads and finished MCS search jobs held back so that completion order differs between conditions; all public columns of every row are compared across contexts "
         "and the merged statistics with the sum of the single-row statistics; (a) and (b) are replayed through the model inside Coq. "
         "A cross-context difference counts only if it reproduces (the row is re-run 3x alone; unstable rows are timing_unstable). "
         "Non-trivial: a (reaction, context) pair for a reaction edited by some stage; distinct = distinct pair.")
@@ -103,6 +103,21 @@ def run(ctx):
         rows = api_rows(Balancer(n_jobs=nj, batch_size=None).rebalance(list(p), output_dict=True, stats=st))
         compare("n_jobs=%d" % nj, p, rows, st)
         ctx.count("contexts", "worker_counts")
+    # (e) worker threads with an adversarial schedule: finished MCS search jobs are held back so that the completion order differs
+    # from condition to condition (process pools complete mostly in submission order, which hides order-dependent code)
+    import mcs
+    items = []
+    for _ in range(2 if ctx.quick() else 12):
+        p = rng.sample(pool["mcs-based"] and [x for x in rx if x in set(pool["mcs-based"])] or rx, min(5, len(rx))) + rng.sample(rx, 2)
+        p = list(dict.fromkeys(p)); rng.shuffle(p)
+        plan = {"%d:%d" % (i, c): "hold:%s" % rng.choice(["0", "0.1", "0.25", "0.4"]) for i in range(len(p)) for c in range(3)}
+        items.append((p, {"search": plan}, 0, 3))
+    for rec in mcs.run_many(items):
+        if rec["error"]:
+            ctx.mismatch("scheduled run raised", rec["inputs"][:2], rec["error"], None)
+            continue
+        compare("3 worker threads, held search jobs %s" % json.dumps(rec["plan"]["search"], sort_keys=True), rec["inputs"], rec["rows"], rec["stats"])
+        ctx.count("contexts", "adversarial_schedules")
     ctx.count("contexts", "orders", len(res["perms"]))
     ctx.count("contexts", "batch_sizes", len(sizes))
     # reproducibility filter
